@@ -270,6 +270,40 @@ func TestC05_P_HamtLookup(t *testing.T) {
 			} else if lerr == nil {
 				t.Fatalf("C05 hamt lookup of non-member %q succeeded", name)
 			}
+			// the same lookup while one shard of the hash path cannot be loaded (for good, or once), through any of the entry
+			// points: a fault is no licence to ask for shards off the path
+			if len(wantPath) > 0 {
+				st.ResetLogs()
+				bad := wantPath[len(name)%len(wantPath)]
+				if len(name)%2 == 0 {
+					st.Missing = map[cid.Cid]bool{bad: true}
+				} else {
+					st.FailReadAt = 1 + len(name)%len(wantPath)
+				}
+				ep := len(name) % 5
+				must(t, "lookup under a fault", func() {
+					rn, e := unixfsnode.Reify(ipld.LinkContext{}, pn, ls)
+					if e != nil {
+						return
+					}
+					switch ep {
+					case 0:
+						_, _ = rn.LookupByString(name)
+					case 1:
+						_, _ = rn.LookupByNode(basicnode.NewString(name))
+					case 2:
+						_, _ = rn.LookupBySegment(datamodel.PathSegmentOfString(name))
+					case 3:
+						_, _ = rn.LookupByNode(pbString(name))
+					default:
+						_ = rn.(nativeDir).Lookup(pbString(name))
+					}
+				})
+				st.Missing, st.FailReadAt = map[cid.Cid]bool{}, 0
+				if c, ok := subsetOf(st.ReadLog(), cidSet(wantPath)); !ok {
+					t.Fatalf("C05 hamt fanout=%d n=%d lookup %q (entry point %d: 0 string, 1 node, 2 segment, 3 typed key, 4 typed accessor) with a shard of its hash path failing: requested %s which is not on the hash path (requested %d blocks, the path has %d)", fanout, len(names), name, ep, c, len(cidSet(st.ReadLog())), len(wantPath))
+				}
+			}
 			_, isM := member[name]
 			nt := len(wantPath) >= 2 || (!isM && len(wantPath) >= 1)
 			ev.Case(fmt.Sprintf("f=%d d=%d p=%d m=%v", fanout, tree.Depth(), len(wantPath), isM), nt,
